@@ -199,21 +199,32 @@ true — three-valued, every other term unknown — when the error is io.EOF and
 						return true
 					}
 					has := false
-					ast.Inspect(is.Cond, func(m ast.Node) bool {
-						if call, ok := m.(*ast.CallExpr); ok {
-							if sel, ok := call.Fun.(*ast.SelectorExpr); ok && sel.Sel.Name == "closedByFooter" {
-								has = true
+					var look func(e ast.Node, ci *types.Info, depth int)
+					look = func(e ast.Node, ci *types.Info, depth int) {
+						ast.Inspect(e, func(m ast.Node) bool {
+							if call, ok := m.(*ast.CallExpr); ok {
+								if sel, ok := call.Fun.(*ast.SelectorExpr); ok && sel.Sel.Name == "closedByFooter" {
+									has = true
+								} else if depth < 2 {
+									// a predicate method of the module that asks for it (its answer inlined below)
+									if ret, ri := predicateBody(c, ci, call); ret != nil {
+										look(ret, ri, depth+1)
+									}
+								}
 							}
-						}
-						return true
-					})
+							return true
+						})
+					}
+					look(is.Cond, info, 0)
 					if !has {
 						return true
 					}
 					n++
 					key := fmt.Sprintf("%s:footer-test#%d:missing-footer-alone-is-a-truncation", funcName(p, fd), n)
-					var ev func(e ast.Expr) int // 1 true, 0 false, -1 unknown
-					ev = func(e ast.Expr) int {
+					var evIn func(e ast.Expr, info *types.Info, depth int) int // 1 true, 0 false, -1 unknown
+					ev := func(e ast.Expr) int { return evIn(e, info, 0) }
+					evIn = func(e ast.Expr, info *types.Info, depth int) int {
+						ev := func(e ast.Expr) int { return evIn(e, info, depth) }
 						e = ast.Unparen(e)
 						switch y := e.(type) {
 						case *ast.BinaryExpr:
@@ -259,6 +270,11 @@ true — three-valued, every other term unknown — when the error is io.EOF and
 							}
 							if fullName(callee(info, y)) == "errors.Is" && len(y.Args) == 2 && isObj(info, y.Args[1], "io", "EOF") {
 								return 1
+							}
+							if depth < 2 {
+								if ret, ri := predicateBody(c, info, y); ret != nil {
+									return evIn(ret, ri, depth+1)
+								}
 							}
 						}
 						return -1
